@@ -650,7 +650,7 @@ func (fc *FnCtx) execMakeInterface(fr *Frame, st *State, x *ssa.MakeInterface) V
 	}
 	// a pointer to a repo struct boxed into a non-empty, non-error interface (e.g. the oneof wrapper of a
 	// protobuf message): the interface value is the reference itself, its dynamic type is dynType(ref)
-	if n, ok := isStructPtr(x.X.Type()); ok && n.Obj().Pkg() != nil && isRepoPkg(n.Obj().Pkg()) {
+	if n, ok := isStructPtr(x.X.Type()); ok && n.Obj().Pkg() != nil && (isRepoPkg(n.Obj().Pkg()) || strings.HasPrefix(n.Obj().Pkg().Path(), "github.com/ipfs/go-datastore")) {
 		if it, ok := unalias(x.Type()).Underlying().(*types.Interface); ok && !it.Empty() {
 			if vt, ok := v.(Term); ok {
 				return vt
